@@ -98,9 +98,10 @@ def unit_summary(fact_path):
             pass
     data = json.load(open(fact_path))
     s = summarize(data)
-    with open(cg + ".tmp", "w") as f:
+    tmp = "%s.tmp.%d" % (cg, os.getpid())
+    with open(tmp, "w") as f:
         json.dump(s, f)
-    os.replace(cg + ".tmp", cg)
+    os.replace(tmp, cg)
     return s
 
 
